@@ -19,6 +19,8 @@ def pieces(sid, k, n, first_table=None):
         return {1: [f"ALTER TABLE t{t} ADD UNIQUE (a{t});"], 2: [f"ALTER TABLE t{t}", f"ADD UNIQUE (a{t});"]}[n]
     if k == "view":
         return {1: [f"CREATE VIEW v{s} AS SELECT 1;"], 2: [f"CREATE VIEW v{s} AS", f"SELECT a FROM x{s};"]}[n]
+    if k == "ext":   # rejected only at END of input (every token is a valid grammar prefix)
+        return {1: [f"CREATE EXTENSION ext{s};"]}[n]
     if k == "unsup":
         return {1: [f"SELECT * FROM x{s};"], 2: [f"SELECT a{s},", f"b FROM x{s};"], 3: [f"SELECT a{s}", f"FROM x{s}", f"WHERE a{s} > 1;"]}[n]
     if k == "insert":
@@ -34,7 +36,13 @@ def pieces(sid, k, n, first_table=None):
     raise ValueError(k)
 
 
-TEXTS = ["note{c} alpha", "create table zz{c} (y int); drop", "note{c}, (paren) and; semi", "ALTER TABLE qq{c} ADD xx{c}", "primary key{c} = 5"]
+TEXTS = ["note{c} alpha", "Use the customer key{c}, not the name", "GO ahead note{c}; delete later", "insert note{c} into x values (1)", "create table zz{c} (y int); drop", "note{c}, (paren) and; semi", "ALTER TABLE qq{c} ADD xx{c}", "primary key{c} = 5"]
+
+
+def salt(beh):
+    """per-behaviour offset into the comment text pool, so that one run uses every text at every position"""
+    k = next((i for i, l in enumerate(beh["lines"]) if l["cm"]["style"] != "none"), 0)
+    return k * 3 + len(beh["lines"]) * 5 + len(beh["stmts"])
 
 
 def cm_text(cid, dash, seed):
@@ -81,6 +89,7 @@ def first_table_of(stmts):
 
 
 def render(beh, stmts, seed):
+    seed = seed + salt(beh)
     ft = first_table_of(stmts)
     return "\n".join(render_line(l, stmts, seed, ft) for l in beh["lines"]) + "\n"
 
@@ -151,6 +160,7 @@ def code_texts(beh, stmts):
 
 def comment_problems(reported, beh, stmts, seed):
     """C08: every reported item is (part of) one source comment, in source order, and contains no code"""
+    seed = seed + salt(beh)
     srcs = source_comments(beh, seed)
     codes = [c for c in code_texts(beh, stmts) if len(c) > 3]
     probs = []
